@@ -44,7 +44,7 @@ func c08Rebind(cfg *ProgCfg, r *proto.Rng) bool {
 		return false
 	}
 	k := proto.Pick(r, cands)
-	cfg.Bindings[k] = map[string]string{"type": "verifharness/internal/alt/sup.Tag"}
+	cfg.Bindings[k] = map[string]string{"type": "verifharness/altsup/sup.Tag"}
 	return true
 }
 
